@@ -1,1 +1,155 @@
--- property theorems of C18 (not built yet)
+/-
+  C18 — parallel post-processing is invariant to how samples are split across ranks.
+  Theorems about `TaurexModel/Variance.lean` (the definitions `driver_c18` executes on Float), over ℝ
+  (and one kernel-decided witness over ℚ).  A sample is a pair `(value, weight)`.
+    accOf            = OnlineVariance.update over a rank's samples
+    pooledVariance   = OnlineVariance.parallelVariance on every rank (NaN recognised by value, the current code),
+                       `ser` = the pickle round trip of every gathered object, `id` = no mpi4py
+    partition size   = the blocks `samples[rank::size]`, `splitVariance` = the whole post-processing loop
+-/
+import Proofs.C18
+import Proofs.C18Partition
+import Proofs.C18Derived
+
+namespace Taurex.C18
+open Taurex Taurex.Variance
+
+/-- West's streaming update: after any samples whose non-empty weight prefixes have positive sums, the
+    accumulators hold the count, the total weight, the weighted mean `Σwx/Σw` and `m2 = Σ w (x - mean)²`. -/
+theorem update_invariant (l : List (ℝ × ℝ)) (hne : l ≠ [])
+    (hpos : ∀ k, 0 < k → k ≤ l.length → 0 < wsum (l.take k)) :
+    (accOf l).count = l.length ∧ (accOf l).wcount = wsum l ∧ (accOf l).mean = wmean l ∧
+      (accOf l).m2 = sumBy (fun p => p.2 * ((p.1 - wmean l) * (p.1 - wmean l))) l := by
+  have hp : PosPrefix l := fun k hk hkl => by have := hpos k hk hkl; rwa [wsum_eq] at this
+  obtain ⟨h1, h2, h3⟩ := accOf_inv l hp
+  obtain ⟨hm, hm2⟩ := h3 hne
+  have hW : 0 < S0 l := hp.total hne
+  refine ⟨h1, by rw [h2, wsum_eq], by rw [hm, wmean_eq], ?_⟩
+  rw [hm2, sumBy_eq, wmean_eq, sum_sq_dev]
+  field_simp; ring
+
+example : (accOf [((1 : ℝ), (0.2 : ℝ)), (4, 0.3), (2, 0.5)]).mean = wmean [((1 : ℝ), (0.2 : ℝ)), (4, 0.3), (2, 0.5)] :=
+  (update_invariant _ (by simp) (by
+    intro k hk hkl
+    rw [wsum_eq]
+    exact posPrefix_of_pos (by intro p hp; simp at hp; rcases hp with rfl | rfl | rfl <;> norm_num) k hk hkl)).2.2.1
+
+/-- Pooled = two-pass, for ANY assignment of the samples to ranks (blocks may be empty or hold one sample),
+    through the serialisation of every gathered value: with positive weights and at least two samples in total,
+    every rank's `parallelVariance` is the two-pass weighted variance of the concatenation of the blocks. -/
+theorem combine_two_pass (parts : List (List (ℝ × ℝ))) (hpos : ∀ part ∈ parts, ∀ p ∈ part, 0 < p.2)
+    (h2 : 2 ≤ parts.flatten.length) :
+    pooledVariance ser parts = some (Val.fin (twoPassVar parts.flatten)) :=
+  parallelVariance_eq exchange_ser (summ_forall hpos) h2
+
+/-- non-vacuity: 3 ranks holding 2 / 1 / 0 samples -/
+example : pooledVariance ser [[((1 : ℝ), (0.2 : ℝ)), (4, 0.3)], [(2, 0.5)], []] =
+    some (Val.fin (twoPassVar [((1 : ℝ), (0.2 : ℝ)), (4, 0.3), (2, 0.5)])) :=
+  combine_two_pass _ (by
+    intro part hpart p hp
+    simp at hpart
+    rcases hpart with rfl | rfl | rfl <;> simp at hp
+    · rcases hp with rfl | rfl <;> norm_num
+    · subst hp; norm_num) (by simp)
+
+/-- the pooled mean computed on the way is the weighted mean of all samples -/
+theorem combine_mean (parts : List (List (ℝ × ℝ))) (hpos : ∀ part ∈ parts, ∀ p ∈ part, 0 < p.2)
+    (hne : parts.flatten ≠ []) :
+    parallelMean nanByValue ser (parts.map accOf) = some (Val.fin (wmean parts.flatten)) :=
+  parallelMean_eq exchange_ser (summ_forall hpos) hne
+
+/-- With fewer than two samples in total every rank reports NaN, as a single process does. -/
+theorem pooled_lt2 (exch : Obj ℝ → Obj ℝ) (parts : List (List (ℝ × ℝ)))
+    (hpos : ∀ part ∈ parts, ∀ p ∈ part, 0 < p.2) (h2 : parts.flatten.length < 2) :
+    pooledVariance exch parts = some Val.nan :=
+  parallelVariance_lt2 (summ_forall hpos) h2
+
+example : pooledVariance ser [[], [((3 : ℝ), (1 : ℝ))], []] = some Val.nan :=
+  pooled_lt2 _ _ (by
+    intro part hpart p hp
+    simp at hpart
+    rcases hpart with rfl | rfl | rfl <;> simp at hp
+    subst hp; norm_num) (by simp)
+
+/-- The single process without mpi4py (nothing is serialised, one block) computes the same two-pass variance. -/
+theorem single_process_two_pass (xs : List (ℝ × ℝ)) (hpos : ∀ p ∈ xs, 0 < p.2) (h2 : 2 ≤ xs.length) :
+    pooledVariance id [xs] = some (Val.fin (twoPassVar xs)) := by
+  have := parallelVariance_eq exchange_id (summ_forall (parts := [xs]) (by simpa using hpos)) (by simpa using h2)
+  simpa [pooledVariance] using this
+
+/-- The rank slices `xs[r::size]`, `r < size`, are a partition of the samples: concatenated they are a
+    permutation of `xs` (each sample exactly once), there are `size` of them, and on the index list `range n`
+    slice `r` is exactly the indices below `n` congruent to `r`. -/
+theorem strided_partition {β : Type} {size : ℕ} (hs : 0 < size) (xs : List β) :
+    (partition size xs).flatten.Perm xs ∧ (partition size xs).length = size ∧
+      ∀ n r i, r < size → (i ∈ strided r size (List.range n) ↔ i < n ∧ i % size = r) :=
+  ⟨partition_flatten_perm hs xs, partition_length size xs, fun _ _ _ hr => mem_strided_range hr⟩
+
+example : (partition 2 [10, 11, 12]).flatten.Perm [10, 11, 12] ∧ partition 2 [10, 11, 12] = [[10, 12], [11]] :=
+  ⟨(strided_partition (by norm_num) _).1, by decide⟩
+
+/-- Invariance to the split: for every number of ranks the post-processing loop (strided blocks, streaming
+    update on each rank, gather through pickling, pooled combination) returns what the single process returns:
+    the two-pass weighted variance of all samples, or NaN when there are fewer than two. -/
+theorem split_invariant {size : ℕ} (hs : 0 < size) (xs : List (ℝ × ℝ)) (hpos : ∀ p ∈ xs, 0 < p.2) :
+    splitVariance size xs = pooledVariance id [xs] ∧
+      splitVariance size xs = if xs.length < 2 then some Val.nan else some (Val.fin (twoPassVar xs)) := by
+  have hperm := partition_flatten_perm hs xs
+  have hpp : ∀ part ∈ partition size xs, ∀ p ∈ part, 0 < p.2 := by
+    intro part hpart p hp
+    exact hpos p (hperm.subset (List.mem_flatten.2 ⟨part, hpart, hp⟩))
+  have hlen : (partition size xs).flatten.length = xs.length := hperm.length_eq
+  by_cases h2 : xs.length < 2
+  · have e1 : splitVariance size xs = some Val.nan := pooled_lt2 _ _ hpp (by omega)
+    have e2 : pooledVariance id [xs] = some Val.nan :=
+      pooled_lt2 _ _ (by simpa using hpos) (by simpa using h2)
+    simp [e1, e2, h2]
+  · have e1 : splitVariance size xs = some (Val.fin (twoPassVar xs)) := by
+      have := combine_two_pass (partition size xs) hpp (by omega)
+      rw [twoPassVar_perm hperm] at this
+      exact this
+    have e2 := single_process_two_pass xs hpos (by omega)
+    simp [e1, e2, h2]
+
+/-- … hence the same for any two rank counts -/
+theorem split_invariant_sizes {s₁ s₂ : ℕ} (h₁ : 0 < s₁) (h₂ : 0 < s₂) (xs : List (ℝ × ℝ))
+    (hpos : ∀ p ∈ xs, 0 < p.2) : splitVariance s₁ xs = splitVariance s₂ xs := by
+  rw [(split_invariant h₁ xs hpos).1, (split_invariant h₂ xs hpos).1]
+
+example : splitVariance 2 [((1 : ℝ), (0.2 : ℝ)), (4, 0.3), (2, 0.5)] =
+    splitVariance 7 [((1 : ℝ), (0.2 : ℝ)), (4, 0.3), (2, 0.5)] :=
+  split_invariant_sizes (by norm_num) (by norm_num) _ (by
+    intro p hp; simp at hp; rcases hp with rfl | rfl | rfl <;> norm_num)
+
+/-- What the model distinguishes (defect F7, repaired by 02e0331): had `combine_variance` recognised the NaN
+    variance of a one-sample rank by *identity* with `np.nan`, the serialised exchange would poison the pooled
+    variance — 2 ranks, 3 samples, exact rational arithmetic — while the value test gives the two-pass 14/9. -/
+theorem nan_identity_witness :
+    parallelVariance nanByIdentity ser ((partition 2 [((1 : Rat), (1 : Rat)), (2, 1), (4, 1)]).map accOf)
+        = some Val.nan ∧
+    parallelVariance nanByIdentity id ([[((1 : Rat), (1 : Rat)), (2, 1), (4, 1)]].map accOf)
+        = some (Val.fin (14 / 9)) ∧
+    parallelVariance nanByValue ser ((partition 2 [((1 : Rat), (1 : Rat)), (2, 1), (4, 1)]).map accOf)
+        = some (Val.fin (14 / 9)) := by
+  decide +kernel
+
+/-- `compute_derived_trace`: every rank evaluates the derived parameters of its slice `range(rank, n, size)`, the
+    per-rank lists are concatenated in rank order, and sample order is restored by matching sorted weights.
+    With pairwise distinct weights the stored trace is the trace in sample order, for every number of ranks. -/
+theorem derived_order {size : ℕ} (hs : 0 < size) {weights trace : List ℝ} (hn : weights.Nodup)
+    (hlen : trace.length = weights.length) : derivedTraceGather size weights trace = trace :=
+  derivedTraceGather_eq hs hn hlen
+
+example : derivedTraceGather 2 [(0.2 : ℝ), 0.5, 0.3] [(10 : ℝ), 11, 12] = [10, 11, 12] :=
+  derived_order (by norm_num) (by
+    rw [List.nodup_cons, List.nodup_cons]
+    refine ⟨?_, ?_, List.nodup_singleton _⟩ <;> simp <;> norm_num) rfl
+
+/-- K2: the hypothesis cannot be dropped.  Three samples of equal weight on two ranks are gathered as
+    `[t0, t2, t1]` and the weight matching leaves them there (exact rational arithmetic, stable argsort). -/
+theorem derived_order_tie_witness :
+    derivedTraceGather 2 [(1 : Rat), 1, 1] [(10 : Rat), 11, 12] = [10, 12, 11] ∧
+    derivedTraceGather 1 [(1 : Rat), 1, 1] [(10 : Rat), 11, 12] = [10, 11, 12] := by
+  decide +kernel
+
+end Taurex.C18
